@@ -64,7 +64,7 @@ macro_rules! walkers {
                     if f >= 1000 {
                         panic!("user:ans");
                     }
-                    $Out(format!("a{f}({a})"))
+                    $Out::new(format!("a{f}({a})"))
                 }
             }
 
@@ -103,7 +103,7 @@ macro_rules! walkers {
                 // Ok(Ok(next)) = handled; Ok(Err(st)) = not a common step
                 match st {
                     St::DR(b) => match op {
-                        Op::Ret(v) => Ok(Ok(St::QRV(b.returns($Out(format!("r{v}")))))),
+                        Op::Ret(v) => Ok(Ok(St::QRV(b.returns($Out::new(format!("r{v}")))))),
                         _ => common_response!(b, op, "DefineResponse").map(Ok),
                     },
                     St::DMR(b) => match op {
@@ -269,7 +269,7 @@ macro_rules! walkers {
     };
 
     (@dmr_returns true, $b:expr, $v:expr, $Out:ident) => {
-        Ok::<_, String>(St::Q($b.returns($Out(format!("r{}", $v)))))
+        Ok::<_, String>(St::Q($b.returns($Out::new(format!("r{}", $v)))))
     };
     (@dmr_returns false, $b:expr, $v:expr, $Out:ident) => {{
         let _ = ($b, $v);
